@@ -633,7 +633,7 @@ def relative_requires(chk, root):
                 got = "%s: %s" % (type(e).__name__, str(e)[:80])
         chk.count("relative:dots%d-segments%d%s" % (dots, segs, "-list" if via_list else ""))
         chk.case("rel:" + modname + form, nontrivial=True,
-                 sample={"in_package": pkg, "form": form, "target": leaf} if k % 9 == 0 else None)
+                 sample={"in_package": pkg, "form": form, "target": leaf} if k % 25 == 3 else None)
         if got != leaf:
             chk.fail("relative-module-name", {"in_package": pkg, "form": form, "dots": dots, "segments": segs}, got, leaf,
                      "a package tree as written by props/c35.py:relative_files; module %s contains: %s; "
